@@ -4,7 +4,10 @@ import json, os, re, shutil, subprocess, sys, time, hashlib
 
 VERIF = os.path.dirname(os.path.dirname(os.path.abspath(__file__)))
 REPO = os.environ.get("CIRC_REPO", "/repo")
-WORK = os.path.join(VERIF, ".work")
+# VERIF_SCRATCH (dev only): run against another copy of the repo without disturbing .work / evidence / replays
+SCRATCH = os.environ.get("VERIF_SCRATCH")
+WORK = os.path.join(SCRATCH, "work") if SCRATCH else os.path.join(VERIF, ".work")
+OUT = SCRATCH if SCRATCH else VERIF
 
 EXIT_OK, EXIT_VIOLATION, EXIT_UNDECIDED = 0, 1, 2
 
@@ -55,10 +58,12 @@ HARNESS_MODULES = {
     "pointers_h.rs": ("src/ebr_impl/pointers.rs", "verif_ptr"),  # C11
     "epoch_h.rs": ("src/ebr_impl/epoch.rs", "verif_epoch"),     # C14 (Epoch arithmetic)
     "internal_h.rs": ("src/ebr_impl/internal.rs", "verif_internal"),  # C13 C14 C15 C16
+    "internal_cut_h.rs": ("src/ebr_impl/internal.rs", "verif_cut"),   # EBR cut-off stub for L1/L2 harnesses
     "deferred_h.rs": ("src/ebr_impl/deferred.rs", "verif_deferred"),  # C15
     "guard_h.rs": ("src/ebr_impl/guard.rs", "verif_guard"),     # C16
     "list_h.rs": ("src/ebr_impl/sync/list.rs", "verif_list"),   # C18
     "queue_h.rs": ("src/ebr_impl/sync/queue.rs", "verif_queue"),  # C17
+    "canary_h.rs": ("src/lib.rs", "verif_canary"),              # vacuity canary (every check)
 }
 
 
@@ -91,7 +96,11 @@ def prepare_crate(tag, modules, contract_groups):
         shutil.rmtree(os.path.join(crate, "src"))
     os.makedirs(crate, exist_ok=True)
     for f in ("Cargo.toml", "Cargo.lock", "README.md"):
+        if not os.path.exists(os.path.join(REPO, f)):
+            raise Undecided("%s missing in %s" % (f, REPO))
         shutil.copy2(os.path.join(REPO, f), os.path.join(crate, f))
+    if not os.path.isdir(os.path.join(REPO, "src")):
+        raise Undecided("src/ missing in %s" % REPO)
     shutil.copytree(os.path.join(REPO, "src"), os.path.join(crate, "src"))
     os.makedirs(os.path.join(crate, ".cargo"), exist_ok=True)
     with open(os.path.join(crate, ".cargo", "config.toml"), "w") as f:
@@ -160,7 +169,7 @@ def prepare_crate(tag, modules, contract_groups):
 # Kani runner
 # ---------------------------------------------------------------------------------------------
 
-NAMED = re.compile(r'^"?(C\d\d\.[A-Za-z0-9_.:<>\-]+)')
+NAMED = re.compile(r'^"?((?:C\d\d|CANARY)\.[A-Za-z0-9_.:<>\-]+)')
 
 
 def _norm(x):
